@@ -39,3 +39,15 @@ pub async fn start_language_server<TCompilationProfile: CompilationProfile>(
         .map_err(|e| LocationFreeDiagnostic::from_error(e).wrap_vec())?;
     Ok(())
 }
+
+/// Verification hooks: re-exports of the request handlers' cores.
+#[cfg(feature = "isographlabs_isograph_verif")]
+pub mod verif {
+    pub use crate::diagnostic_notification::verif_iso_diagnostics_to_params as iso_diagnostics_to_params;
+    pub use crate::format::{char_index_to_position, on_format};
+    pub use crate::goto_definition::on_goto_definition;
+    pub use crate::hover::on_hover;
+    pub use crate::location_utils::isograph_location_to_lsp_location;
+    pub use crate::lsp_state::LspState;
+    pub use crate::semantic_tokens::{delta_line_delta_start, on_semantic_token_full_request};
+}
